@@ -11,6 +11,19 @@ use std::sync::Arc;
 pub const SHARED: [&str; 3] = ["shared_a", "shared_b", "shared_c"];
 pub const PATHS: [&str; 4] = ["/vw/s/conftest.py", "/vw/s/a/test_x.py", "/vw/s/b/test_y.py", "/vw/s/a/conftest.py"];
 
+/// Where the mini workspace lives for the current case: None = the non-existent in-memory root
+/// `/vw/s`, Some(dir) = an existing directory (possibly a symlink) that replaces that prefix.
+/// Cases of the sub-checks that set it run one at a time.
+pub static ROOT_OVERRIDE: std::sync::Mutex<Option<String>> = std::sync::Mutex::new(None);
+
+pub fn path_of(p: u8) -> String {
+    let base = PATHS[p as usize % 4];
+    match ROOT_OVERRIDE.lock().unwrap().as_ref() {
+        Some(r) => base.replacen("/vw/s", r, 1),
+        None => base.to_string(),
+    }
+}
+
 #[derive(Clone, Debug, Serialize, Deserialize, PartialEq)]
 pub struct MiniFile {
     /// (name index, dependency name indices)
@@ -164,7 +177,7 @@ pub struct Task {
 }
 
 pub fn run_task(db: &FixtureDatabase, t: &Task) {
-    let p = PathBuf::from(PATHS[t.path as usize % 4]);
+    let p = PathBuf::from(path_of(t.path));
     let text = render(&t.text);
     if t.fresh {
         db.verif_analyze_file_fresh(p, &text);
